@@ -37,6 +37,15 @@ def d1(v):
     return z3.ForAll([x, y], z3.Implies(v.edge[x][y], v.depth[y] >= v.depth[x] + 1))
 
 
+ALL_FIELDS = ("K", "space", "expanded", "skipped", "parent", "cand", "seeds", "sets", "ppn", "pbn", "pnfvs",
+              "edge", "motifs", "motif0", "succsig", "depth", "index", "net", "sym", "pn")
+
+
+def identical(v, o):
+    """the two views are the same value, field by field (no write happened at all)"""
+    return z3.And(*[getattr(v, f) == getattr(o, f) for f in ALL_FIELDS])
+
+
 def only_depth_changed(c):
     v, o = c.self, c.old.self
     return z3.And(v.K == o.K, S.frame_nodes(v, o, fields=("space", "expanded", "skipped", "parent", "cand", "seeds", "sets",
@@ -308,7 +317,7 @@ def _install_expand(reg):
         return [("expanded", v.expanded[n]),
                 ("node_identity", z3.And(v.space[n] == o.space[n], v.skipped[n] == o.skipped[n])),
                 ("noop_if_already_expanded", z3.Implies(o.expanded[n], z3.And(
-                    v.K == o.K, S.frame_nodes(v, o, fields=NODEF + ("succsig", "depth")), S.frame_edges(v, o), v.index == o.index))),
+                    v.K == o.K, S.frame_nodes(v, o, fields=NODEF + ("succsig", "depth")), S.frame_edges(v, o), v.index == o.index, identical(v, o)))),
                 ("caches_discarded", z3.Implies(z3.Not(o.expanded[n]), node_cleared(v, n))),
                 ("others_unchanged", others_unchanged(v, o, n)),
                 ("extends_entry_diagram", S.ext(v, o)),
@@ -367,7 +376,7 @@ def _install_expand(reg):
                     z3.ForAll([b], z3.Implies(v.edge[n][b], z3.Exists([a], z3.And(0 <= a, a < LI.len(r), LI.at(r)[a] == b)))),
                     z3.ForAll([a, b], z3.Implies(z3.And(0 <= a, a < b, b < LI.len(r)), LI.at(r)[a] != LI.at(r)[b])))),
                 ("noop_if_already_expanded", z3.Implies(o.expanded[n], z3.And(
-                    v.K == o.K, S.frame_nodes(v, o, fields=NODEF + ("succsig", "depth")), S.frame_edges(v, o), v.index == o.index))),
+                    v.K == o.K, S.frame_nodes(v, o, fields=NODEF + ("succsig", "depth")), S.frame_edges(v, o), v.index == o.index, identical(v, o)))),
                 ("caches_discarded", z3.Implies(z3.Not(o.expanded[n]), node_cleared(v, n))),
                 ("others_unchanged", others_unchanged(v, o, n)),
                 ("extends_entry_diagram", S.ext(v, o)),
@@ -491,15 +500,20 @@ def _install_meta(reg):
 
     def fn_post(c):
         v, r, q = c.self, c.result, c.node_space
+        D = M.TDict(TInt, TInt)
+        key = T.SKey(S.net(v), q)
         return [("found_iff_equal_space", z3.And(
             z3.Implies(z3.Not(OI2.is_none(r)), z3.And(S.valid(v, OI2.val(r)), v.space[OI2.val(r)] == q)),
-            z3.Implies(OI2.is_none(r), z3.ForAll([i], z3.Implies(S.valid(v, i), v.space[i] != q)))))]
+            z3.Implies(OI2.is_none(r), z3.ForAll([i], z3.Implies(S.valid(v, i), v.space[i] != q))))),
+                ("is_index_lookup", z3.And(
+                    OI2.is_none(r) == z3.Not(z3.And(T.dom_within(q, S.net(v)), D.dom(v.index)[key])),
+                    z3.Implies(z3.Not(OI2.is_none(r)), OI2.val(r) == D.vals(v.index)[key])))]
 
     reg.add(Contract(
         "biobalm.succession_diagram.SuccessionDiagram.find_node", params=[("self", SD), ("node_space", TSpace)], result_type=OI2,
         properties=("C20",),
         requires=[lambda c: S.inv_all(c.self), lambda c: T.wf_space(c.node_space)],
-        ensures=[(nm, pick(fn_post, nm)) for nm in ["found_iff_equal_space"]],
+        ensures=[(nm, pick(fn_post, nm)) for nm in ["found_iff_equal_space", "is_index_lookup"]],
         lemmas=[("L10.key_injective", lambda c: z3.ForAll([i], z3.Implies(
             z3.And(S.valid(c.self, i), T.SKey(S.net(c.self), c.self.space[i]) == T.SKey(S.net(c.self), c.node_space),
                    T.wf_space(c.node_space), T.dom_within(c.node_space, S.net(c.self))),
@@ -871,4 +885,89 @@ def _install_skip4(reg):
                                     ("def.SkipOK", lambda c: S.skipok_intro_inside(N(c.self), c.self.space[c.node_id], c.minimal_traps, c.self.succsig[c.node_id]))]),
         },
         local_types={"minimal_traps": LS, "trap_with_id": TW, "skipped_nodes": TInt, "skip_edges": TInt},
+    ), method_of="SD")
+
+
+# ====================================================================== is_subgraph / is_isomorphic (C20)
+def _install_compare(reg):
+    INVN = [nm for nm, _ in S.inv(M.View(_dummy_ho()))]
+    NODEF = ("space", "expanded", "skipped", "parent", "cand", "seeds", "sets", "ppn", "pbn", "pnfvs")
+    a_, b_, t_ = z3.Int("a"), z3.Int("b"), z3.Int("t")
+
+    def unchanged(v, o):
+        return identical(v, o)
+
+    D = M.TDict(TInt, TInt)
+
+    def has(vo, sp):
+        """some node of `vo` has exactly the space sp (spaces are unique per diagram, I-key): decided by the key index"""
+        return z3.And(T.dom_within(sp, S.net(vo)), D.dom(vo.index)[T.SKey(S.net(vo), sp)])
+
+    def idof(vo, sp):
+        return D.vals(vo.index)[T.SKey(S.net(vo), sp)]
+
+    def succ_ok(vs, vo, jn, s):
+        """successor s of a node of `self` matched with node jn of `other`: other has the edge to the node with the same space"""
+        return z3.And(has(vo, vs.space[s]), vo.expanded[jn], vo.edge[jn][idof(vo, vs.space[s])])
+
+    def node_ok(vs, vo, n):
+        jn = idof(vo, vs.space[n])
+        return z3.And(has(vo, vs.space[n]),
+                      z3.Implies(vs.expanded[n], z3.ForAll([a_], z3.Implies(z3.And(S.valid(vs, a_), vs.edge[n][a_]), succ_ok(vs, vo, jn, a_)))))
+
+    def spec(vs, vo):
+        return z3.ForAll([i], z3.Implies(S.valid(vs, i), node_ok(vs, vo, i)))
+
+    def both_inv(c):
+        return z3.And(S.inv_all(c.self), S.inv_all(c.other), c.self.net == c.other.net)
+
+    def lem_key(c):
+        """L10.key_injective between the two diagrams (same network): equal keys <=> equal spaces; used for uniqueness of matches"""
+        vs, vo = c.self, c.other
+        Nn = S.net(vo)
+        return z3.ForAll([a_, b_], z3.Implies(z3.And(S.valid(vo, a_), S.valid(vo, b_), vo.space[a_] == vo.space[b_]), a_ == b_))
+
+    def outer_inv(c):
+        vs, vo = c.self, c.other
+        return [("inv_both", both_inv(c)), ("unchanged", z3.And(unchanged(vs, c.old.self), unchanged(vo, c.old.other))),
+                ("prefix_matched", z3.ForAll([i], z3.Implies(z3.And(0 <= i, i < c.i), node_ok(vs, vo, i)))),
+                ("range", z3.And(0 <= c.i, c.i <= vs.K))]
+
+    def inner_inv(c):
+        vs, vo = c.self, c.other
+        n = c.outer(0)["i"]
+        OI2 = TOpt(TInt)
+        jn = OI2.val(c.other_i) if c.val("other_i").ty == OI2 else c.other_i
+        return [("inv_both", both_inv(c)), ("unchanged", z3.And(unchanged(vs, c.old.self), unchanged(vo, c.old.other))),
+                ("prefix_matched", z3.ForAll([i], z3.Implies(z3.And(0 <= i, i < n), node_ok(vs, vo, i)))),
+                ("node_matched", z3.And(S.valid(vs, n), c.local("i") == n, vs.expanded[n], S.valid(vo, jn), vo.space[jn] == vs.space[n])),
+                ("successor_list", z3.And(
+                    z3.ForAll([a_], z3.Implies(z3.And(0 <= a_, a_ < LI.len(c.coll)), z3.And(S.valid(vs, LI.at(c.coll)[a_]), vs.edge[n][LI.at(c.coll)[a_]]))),
+                    z3.ForAll([b_], z3.Implies(vs.edge[n][b_], z3.Exists([a_], z3.And(0 <= a_, a_ < LI.len(c.coll), LI.at(c.coll)[a_] == b_))),
+                              patterns=[vs.edge[n][b_]]))),
+                ("successors_matched_so_far", z3.ForAll([a_], z3.Implies(z3.And(0 <= a_, a_ < c.i), succ_ok(vs, vo, jn, LI.at(c.coll)[a_])),
+                                                        patterns=[LI.at(c.coll)[a_]]))]
+
+    reg.add(Contract(
+        "biobalm.succession_diagram.SuccessionDiagram.is_subgraph",
+        params=[("self", SD), ("other", SD)], result_type=TBool, properties=("C20",),
+        requires=[lambda c: both_inv(c), lambda c: z3.And(c.self.cfg_max_motifs_per_node >= 0, c.other.cfg_max_motifs_per_node >= 0)],
+        modifies={"self": [], "other": []},
+        ensures=[("decides_inclusion_of_nodes_and_edges", lambda c: c.result == spec(c.self, c.other)),
+                 ("nothing_changed", lambda c: z3.And(unchanged(c.self, c.old.self), unchanged(c.other, c.old.other)))],
+        lemmas=[("L10.key_injective(unique nodes)", lem_key)],
+        loops={0: LoopContract("for i in self.node_ids()", outer_inv, havoc_heap={"self": [], "other": []},
+                               lemmas=[("L10.key_injective(unique nodes)", lem_key)]),
+               1: LoopContract("for my_s in my_successors", inner_inv, havoc_heap={"self": [], "other": []},
+                               lemmas=[("L10.key_injective(unique nodes)", lem_key)])},
+        local_types={"other_successors": LI, "my_successors": LI, "other_i": TOpt(TInt), "other_s": TOpt(TInt)},
+        note="both diagrams must be over the same network object semantics (the docstring's 'same subset of variables' case is not covered)",
+    ), method_of="SD")
+
+    reg.add(Contract(
+        "biobalm.succession_diagram.SuccessionDiagram.is_isomorphic",
+        params=[("self", SD), ("other", SD)], result_type=TBool, properties=("C20",),
+        requires=[lambda c: both_inv(c), lambda c: z3.And(c.self.cfg_max_motifs_per_node >= 0, c.other.cfg_max_motifs_per_node >= 0)],
+        modifies={"self": [], "other": []},
+        ensures=[("decides_equality_of_node_and_edge_sets", lambda c: c.result == z3.And(spec(c.self, c.other), spec(c.other, c.self)))],
     ), method_of="SD")
